@@ -104,7 +104,7 @@ def reproduce(drv, cfg, group_lines, extra_data=None, module="SnapTrace"):
     raise Broken("replay validation: %s\n%s" % (r.error, r.out[-2000:]))
 
 
-def validate(prop, cfg, lines, v, drv, classify=None, max_fail=6, timeout=7200, module="SnapTrace", max_known=40):
+def validate(prop, cfg, lines, v, drv, classify=None, max_fail=6, timeout=7200, module="SnapTrace", max_known=40, require_repro=True):
     """Run TLC over the whole trace; on a failing record: reproduce its group, classify, report, remove the group, continue.
     Returns dict with states, transitions, stats."""
     lines = list(lines)
@@ -131,7 +131,21 @@ def validate(prop, cfg, lines, v, drv, classify=None, max_fail=6, timeout=7200, 
         lo, hi = group_of(lines, idx)
         grp = lines[lo:hi + 1]
         inv, fresh = reproduce(drv, cfg, grp, module=module)
+        for _ in range(4):          # a schedule- or map-order-dependent failure may need a few attempts to show again
+            if inv is not None:
+                break
+            inv, fresh = reproduce(drv, cfg, grp, module=module)
         rec = json.loads(lines[idx])
+        if inv is None and not require_repro:
+            # determinism properties: the recorded calls ARE real behaviour (outputs of pure calls, no timing in the observation);
+            # try a few more times so that the replay file says how often it shows, but report either way
+            tries = 0
+            for tries in range(1, 6):
+                inv, fresh = reproduce(drv, cfg, grp, module=module)
+                if inv:
+                    break
+            rec["_reproduced_after_tries"] = tries if inv else 0
+            inv = inv or r.violated
         if inv is None:
             raise Broken("%s failed on a recorded call but the same call re-executed satisfies it (flaky observation?): %s"
                          % (r.violated, lines[idx][:500]))
@@ -185,7 +199,7 @@ def summarize(stats_vecs):
 
 
 def run_snap_property(prop, tier, cfg, plans, rule, classify=None, second_process=False, min_valid_frac=0.0,
-                      extra_cov=None, assumptions=None, extra_lines=None, post=None, real_plans=None, real_cfg=None):
+                      extra_cov=None, assumptions=None, extra_lines=None, post=None, real_plans=None, real_cfg=None, require_repro=True):
     t0 = time.time()
     v = vlib.Verdict(prop)
     drv = vlib.build_harness()
@@ -200,7 +214,7 @@ def run_snap_property(prop, tier, cfg, plans, rule, classify=None, second_proces
         vlib.rm(d)
     if not lines:
         raise Broken("no records generated")
-    res = validate(prop, cfg, lines, v, drv, classify=classify)
+    res = validate(prop, cfg, lines, v, drv, classify=classify, require_repro=require_repro)
     rres = None
     rlines = []
     if real_plans:
@@ -209,7 +223,7 @@ def run_snap_property(prop, tier, cfg, plans, rule, classify=None, second_proces
             rlines = generate(drv, d, real_plans)
         finally:
             vlib.rm(d)
-        rres = validate(prop, real_cfg, rlines, v, drv, classify=classify, module="RealTrace")
+        rres = validate(prop, real_cfg, rlines, v, drv, classify=classify, module="RealTrace", require_repro=require_repro)
     st = summarize(res["stats"])
     if st["records"] and st["valid"] < min_valid_frac * st["records"]:
         raise Broken("generator degenerate: only %d of %d records are valid polygons" % (st["valid"], st["records"]))
